@@ -382,7 +382,9 @@ Section Decision.
     | Junk _ => None
     end.
 
-  Record party := mkParty { eph : N; sta : N; pay : bytes; dialed_of : option pid }.
+  (* `pro` is the Noise prologue: empty for TCP and WebSocket, "libp2p-webrtc-noise:" followed by
+     the two DTLS fingerprints for WebRTC (NoiseContext::with_prologue) *)
+  Record party := mkParty { eph : N; sta : N; pay : bytes; dialed_of : option pid; pro : bytes }.
 
   Record msg1 := mkM1 { m1_e : bytes; m1_pl : bytes }.
   Record msg2 := mkM2 { m2_e : bytes; m2_s : ct; m2_p : ct }.
@@ -411,7 +413,7 @@ Section Decision.
 
   (* listener after reading message 1: transcript, DH outputs, and its message 2 *)
   Definition l_tr1 (L : party) (d1 : msg1) : list item :=
-    [IB (m1_e d1); IB (m1_pl d1); IB (pubk (eph L))].
+    [IB (pro L); IB (m1_e d1); IB (m1_pl d1); IB (pubk (eph L))].
   Definition l_ks1 (L : party) (d1 : msg1) : list bytes := [dh (eph L) (m1_e d1)].
   Definition l_cs2 (L : party) (d1 : msg1) : ct :=
     Ct (KDF (l_ks1 L d1)) (H (l_tr1 L d1)) (pubk (sta L)).
@@ -426,7 +428,7 @@ Section Decision.
 
   (* dialer reading message 2 *)
   Definition d_tr1 (D : party) (d2 : msg2) : list item :=
-    [IB (pubk (eph D)); IB []; IB (m2_e d2)].
+    [IB (pro D); IB (pubk (eph D)); IB []; IB (m2_e d2)].
   Definition d_ks1 (D : party) (d2 : msg2) : list bytes := [dh (eph D) (m2_e d2)].
   Definition d_tr2 (D : party) (d2 : msg2) : list item := d_tr1 D d2 ++ [IC (m2_s d2)].
   Definition d_ks2 (D : party) (d2 : msg2) (s : bytes) : list bytes :=
